@@ -632,7 +632,9 @@ def entries():
         kw['display_node_weight'] = bool((v >> 11) & 1)
         return kw
     fun('visualize_graph', lambda m, aux, conv: visualization.visualize_graph(m, **vg_kw(aux, conv)), (U, D), 0, 'all')
-    fun('visualize_graph(no position)', lambda m, aux, conv: visualization.visualize_graph(m, labels=aux['labels_array']), (U,), 0)
+    # the layout is computed inside (Spring, up to 50 iterations, stopped when the mean displacement falls under `tol`:
+    # round-off can move that test by one iteration) and rounded to pixels: coordinates are compared within 8 pixels of 400
+    fun('visualize_graph(no position)', lambda m, aux, conv: visualization.visualize_graph(m, labels=aux['labels_array']), (U,), 8.0)
 
     def vb_kw(aux, conv):
         v = aux['variant']
